@@ -108,6 +108,29 @@ def is_size_bound(expr, defs, depth=0):
     return False
 
 
+def zero_padded_at_end(expr, defs, depth=0):
+    """expr is <bytes> completed to `size` with zero bytes on the right: x.ljust(size, b'\\x00'), x + bytes(size - len(x)),
+    x + b'\\x00' * (size - len(x)); single-definition locals are looked through."""
+    if depth > 4:
+        return False
+    if isinstance(expr, ast.Name) and expr.id in defs and len(defs[expr.id]) == 1:
+        return zero_padded_at_end(defs[expr.id][0], defs, depth + 1)
+    if isinstance(expr, ast.Call) and isinstance(expr.func, ast.Name) and expr.func.id in ('bytes', 'bytearray') and len(expr.args) == 1:
+        return zero_padded_at_end(expr.args[0], defs, depth + 1)
+    if isinstance(expr, ast.Call) and isinstance(expr.func, ast.Attribute) and expr.func.attr == 'ljust' and len(expr.args) == 2:
+        a, b = expr.args
+        return u(a) == 'size' and isinstance(b, ast.Constant) and isinstance(b.value, bytes) and b.value == b'\x00'
+    if isinstance(expr, ast.BinOp) and isinstance(expr.op, ast.Add):
+        pad = expr.right
+        if isinstance(pad, ast.Call) and u(pad.func) in ('bytes', 'bytearray') and len(pad.args) == 1 and u(pad.args[0]).startswith('size - len('):
+            return True
+        if isinstance(pad, ast.BinOp) and isinstance(pad.op, ast.Mult):
+            for c, k in ((pad.left, pad.right), (pad.right, pad.left)):
+                if isinstance(c, ast.Constant) and c.value == b'\x00' and u(k).strip('()').startswith('size - len('):
+                    return True
+    return False
+
+
 def check_devices(run, repo):
     m = repo.module(MT)
     n = 0
@@ -181,7 +204,15 @@ def check_devices(run, repo):
                 else:
                     # slice load: python clamps; the result must be padded to `size`
                     rets = [r for r in ast.walk(fi.node) if isinstance(r, ast.Return) and r.value is not None]
-                    padded = any(('ljust' in u(r.value) or 'zfill' in u(r.value) or '+ bytes' in u(r.value)) for r in rets)
+                    padded = any(zero_padded_at_end(r.value, defs) for r in rets)
+                    other = [r for r in rets if not zero_padded_at_end(r.value, defs) and any(
+                        isinstance(c, ast.Call) and isinstance(c.func, ast.Attribute) and c.func.attr in ('zfill', 'rjust', 'center', 'ljust')
+                        for c in ast.walk(r.value))]
+                    for r in other:
+                        ok = False
+                        run.violation('C16-B', ci.relpath, fn, norm_stmt(r, 80),
+                                      'a short chunk must be completed with zero bytes at the END (`.ljust(size, b"\\x00")`): this padding '
+                                      'puts other bytes or puts them in front, so a read that runs past the end of the device returns wrong data')
                     guards = dominating_tests(fi.node, node)
                     if isinstance(sl, ast.Slice) and not padded and not any('self.size' in u(t) for t, p in guards if p != 'loop'):
                         ok = False
